@@ -224,7 +224,7 @@ func (b *builder) buildC04() {
 				c.Raw = m.Render()
 			}
 		} else {
-			c = b.subConn(subKinds[b.r.Intn(len(subKinds))], 70)
+			c = b.subConn(subKindsAll[b.r.Intn(len(subKindsAll))], 70)
 		}
 		if b.r.Chance(1, 3) {
 			c.Junk = b.junk(60)
